@@ -74,6 +74,8 @@ def generate(prop, rng):
         "warm_state": rng.random() < 0.3,
         "hardlink": rng.random() < 0.25,
         "big_threshold": rng.choice([None, None, 0]),
+        # every chunk read of a workspace / store file is a pre-emption point (before and after the read)
+        "fine_reads": rng.random() < 0.6,
     }
     return {
         "prop": prop,
@@ -226,6 +228,7 @@ def execute(sc, ctx):
         raise HarnessError("scenario violates the engine's preconditions")
     cfg = sc["cfg"]
     seam = ctx.seam
+    seam.fine_reads = bool(cfg.get("fine_reads"))
     if cfg.get("big_threshold") is not None:
         from dvc_data.hashfile import build as hbuild
 
